@@ -407,4 +407,275 @@ theorem add_spec {cfg : Cfg} (ok : CfgOK cfg) {m : Index} {h : H Entry} {v : Ent
   · show (pushUp cfg ltEntry (h.len + 1) h1 h.len).1.data[(pushUp cfg ltEntry (h.len + 1) h1 h.len).2]? = some v
     rw [this.2.2, hdata]; simp [H.len]
 
+/-! ## 3. the LRU store -/
+
+/-- invariant of the LRU store between operations -/
+structure LruInv (s : Lru) : Prop where
+  log_nil : s.h.log = []
+  /-- `present` maps the key of every heap element to its offset … -/
+  fwd : ∀ p e, s.h.data[p]? = some e → s.present.get e.key = some p
+  /-- … and nothing else -/
+  bwd : ∀ k, k ∉ s.h.data.map (·.key) → s.present.get k = none
+  ts_nodup : (s.h.data.map (·.lastAccess)).Nodup
+  ts_le : ∀ e ∈ s.h.data, e.lastAccess ≤ s.clock
+
+theorem LruInv.tr {s : Lru} (inv : LruInv s) (x : Nat) : Tr s.present x s.h :=
+  ⟨fun p e hp => by rw [inv.log_nil]; exact inv.fwd p e hp,
+   fun k hk _ => by rw [inv.log_nil]; exact inv.bwd k hk⟩
+
+theorem nodup_keys_of_fwd {l : List Entry} {m : Index}
+    (fwd : ∀ p e, l[p]? = some e → m.get e.key = some p) : (l.map (·.key)).Nodup := by
+  rw [List.nodup_iff_pairwise_ne, List.pairwise_iff_getElem]
+  intro i j hi hj hij hk
+  simp only [List.length_map] at hi hj
+  simp only [List.getElem_map] at hk
+  have a := fwd i l[i] (by simp [hi])
+  have b := fwd j l[j] (by simp [hj])
+  rw [hk, b] at a
+  have := Option.some.inj a
+  omega
+
+theorem LruInv.nodup {s : Lru} (inv : LruInv s) : (s.h.data.map (·.key)).Nodup :=
+  nodup_keys_of_fwd inv.fwd
+
+theorem Tr.nodup {m x} {h : H Entry} (t : Tr m x h) : (h.data.map (·.key)).Nodup :=
+  nodup_keys_of_fwd t.fwd
+
+theorem key_unique {l : List Entry} (nd : (l.map (·.key)).Nodup) {e e' : Entry} (he : e ∈ l) (he' : e' ∈ l)
+    (hk : e.key = e'.key) : e = e' := by
+  induction l with
+  | nil => cases he
+  | cons a l ih =>
+    rw [List.map_cons, List.nodup_cons] at nd
+    have nd1 : ∀ x ∈ l, x.key ≠ a.key := fun x hx hxa => nd.1 (List.mem_map.2 ⟨x, hx, hxa⟩)
+    rcases List.mem_cons.1 he with h1 | h1
+    · rcases List.mem_cons.1 he' with h2 | h2
+      · rw [h1, h2]
+      · exact absurd (h1 ▸ hk).symm (nd1 e' h2)
+    · rcases List.mem_cons.1 he' with h2 | h2
+      · exact absurd (h2 ▸ hk) (nd1 e h1)
+      · exact ih nd.2 h1 h2
+
+theorem LruInv.get_of_mem {s : Lru} (inv : LruInv s) {e : Entry} (he : e ∈ s.h.data) :
+    ∃ p, s.present.get e.key = some p ∧ s.h.data[p]? = some e ∧ p < s.h.data.length := by
+  obtain ⟨p, hp, hpe⟩ := List.getElem_of_mem he
+  have : s.h.data[p]? = some e := by simp [hp, hpe]
+  exact ⟨p, inv.fwd p e this, this, hp⟩
+
+theorem check_of_mem {s : Lru} (inv : LruInv s) {e : Entry} (he : e ∈ s.h.data) :
+    s.check e.key = some e.value := by
+  obtain ⟨p, hg, hp, _⟩ := inv.get_of_mem he
+  simp [Lru.check, hg, hp]
+
+theorem check_of_not_mem {s : Lru} (inv : LruInv s) {k : Nat} (hk : k ∉ s.h.data.map (·.key)) :
+    s.check k = none := by
+  simp [Lru.check, inv.bwd k hk]
+
+/-- `check k` answers from the heap array: the value of the (unique) element with key `k` -/
+theorem check_eq_some_iff {s : Lru} (inv : LruInv s) (k v : Nat) :
+    s.check k = some v ↔ ∃ e ∈ s.h.data, e.key = k ∧ e.value = v := by
+  constructor
+  · intro hc
+    by_cases hk : k ∈ s.h.data.map (·.key)
+    · obtain ⟨e, he, rfl⟩ := List.mem_map.1 hk
+      rw [check_of_mem inv he] at hc
+      exact ⟨e, he, rfl, Option.some.inj hc⟩
+    · rw [check_of_not_mem inv hk] at hc; cases hc
+  · rintro ⟨e, he, rfl, rfl⟩; exact check_of_mem inv he
+
+/-- the common first half of `Remove`/`Access`/`Evict`: pop the element at offset `p`, replay the log -/
+theorem popSync_spec {cfg : Cfg} (ok : CfgOK cfg) {s : Lru} (inv : LruInv s) {p : Nat} {e : Entry}
+    (hp : s.h.data[p]? = some e) (clk : Nat) :
+    let r := pop cfg ltEntry s.h p
+    let s1 := ({ s with h := r.1, clock := clk } : Lru).sync
+    r.2 = e ∧ Tr s1.present e.key s1.h ∧ (e :: s1.h.data).Perm s.h.data := by
+  have hlt : p < s.h.data.length := by
+    rcases Nat.lt_or_ge p s.h.data.length with h | h
+    · exact h
+    · rw [List.getElem?_eq_none h] at hp; cases hp
+  have hg : s.h.get p = e := by
+    have := H.get_eq? s.h hlt; rw [hp] at this; exact (Option.some.inj this).symm
+  have := pop_spec ok hlt (hg ▸ inv.tr e.key)
+  rw [hg] at this
+  refine ⟨this.1, ⟨?_, ?_⟩, this.2.2⟩
+  · intro p' e' hp'
+    rw [sync_log, sync_present]
+    exact this.2.1.fwd p' e' hp'
+  · intro k hk hx
+    rw [sync_log, sync_present]
+    exact this.2.1.bwd k hk hx
+
+theorem perm_cons_nodup_keys {e : Entry} {l l' : List Entry} (hp : (e :: l).Perm l')
+    (nd : (l'.map (·.key)).Nodup) : e.key ∉ l.map (·.key) ∧ (l.map (·.key)).Nodup := by
+  have := (hp.map (·.key)).nodup_iff.2 nd
+  rw [List.map_cons, List.nodup_cons] at this
+  exact this
+
+theorem perm_cons_ts {e : Entry} {l l' : List Entry} (hp : (e :: l).Perm l')
+    (nd : (l'.map (·.lastAccess)).Nodup) : (l.map (·.lastAccess)).Nodup := by
+  have := (hp.map (·.lastAccess)).nodup_iff.2 nd
+  rw [List.map_cons, List.nodup_cons] at this
+  exact this.2
+
+/-- `Remove` of a present key: the element leaves, everything else stays, the invariant is kept -/
+theorem remove_spec {cfg : Cfg} (ok : CfgOK cfg) {s : Lru} (inv : LruInv s) {e : Entry} (he : e ∈ s.h.data) :
+    LruInv (s.remove cfg e.key) ∧ (e :: (s.remove cfg e.key).h.data).Perm s.h.data ∧
+    (s.remove cfg e.key).clock = s.clock := by
+  obtain ⟨p, hg, hp, hlt⟩ := inv.get_of_mem he
+  have hr : s.remove cfg e.key =
+      (let s1 := ({ s with h := (pop cfg ltEntry s.h p).1, clock := s.clock } : Lru).sync
+       { s1 with present := s1.present.del e.key }) := by
+    have : ¬ p ≥ s.h.len := by simp [H.len]; exact hlt
+    simp only [Lru.remove, hg, heapRemove, this, if_false]
+  rw [hr]
+  have ps := popSync_spec ok inv hp s.clock
+  obtain ⟨_, t, perm⟩ := ps
+  have nk := perm_cons_nodup_keys perm inv.nodup
+  refine ⟨⟨rfl, ?_, ?_, ?_, ?_⟩, perm, rfl⟩
+  · intro p' e' hp'
+    have hne : e'.key ≠ e.key := fun hk => nk.1 (hk ▸ mem_keys_of_getElem? hp')
+    show (Index.del _ e.key).get e'.key = some p'
+    rw [get_del, if_neg hne]
+    exact t.fwd p' e' hp'
+  · intro k hk
+    show (Index.del _ e.key).get k = none
+    rw [get_del]
+    split
+    · rfl
+    · rename_i hne; exact t.bwd k hk hne
+  · exact perm_cons_ts perm inv.ts_nodup
+  · intro e' he'
+    exact inv.ts_le e' (perm.mem_iff.1 (List.mem_cons_of_mem _ he'))
+
+theorem remove_absent {cfg : Cfg} {s : Lru} (inv : LruInv s) {k : Nat} (hk : k ∉ s.h.data.map (·.key)) :
+    s.remove cfg k = s := by
+  simp [Lru.remove, inv.bwd k hk]
+
+/-- `Evict` on a non-empty store never panics; it removes the element at the root of the heap -/
+theorem evict_spec {cfg : Cfg} (ok : CfgOK cfg) {s : Lru} (inv : LruInv s) (hne : s.h.data ≠ []) :
+    ∃ s' e, s.evict cfg = .ok (s', e.key, e.value) ∧ e = (pop cfg ltEntry s.h 0).2 ∧
+      LruInv s' ∧ (e :: s'.h.data).Perm s.h.data ∧ s'.clock = s.clock := by
+  obtain ⟨e, hp⟩ : ∃ e, s.h.data[0]? = some e := by
+    cases hd : s.h.data with
+    | nil => exact absurd hd hne
+    | cons a l => exact ⟨a, rfl⟩
+  have hlen : ¬ s.h.len = 0 := by
+    simp only [H.len]; intro h0; exact hne (List.length_eq_zero_iff.1 h0)
+  obtain ⟨hout, t, perm⟩ := popSync_spec ok inv hp s.clock
+  have nk := perm_cons_nodup_keys perm inv.nodup
+  refine ⟨{ (({ s with h := (pop cfg ltEntry s.h 0).1, clock := s.clock } : Lru).sync) with
+      present := (({ s with h := (pop cfg ltEntry s.h 0).1, clock := s.clock } : Lru).sync).present.del e.key },
+    e, ?_, hout.symm, ⟨rfl, ?_, ?_, ?_, ?_⟩, perm, rfl⟩
+  · simp only [Lru.evict, hlen, if_false]
+    rw [← hout]
+  · intro p' e' hp'
+    have hne : e'.key ≠ e.key := fun hk => nk.1 (hk ▸ mem_keys_of_getElem? hp')
+    show (Index.del _ e.key).get e'.key = some p'
+    rw [get_del, if_neg hne]
+    exact t.fwd p' e' hp'
+  · intro k hk
+    show (Index.del _ e.key).get k = none
+    rw [get_del]
+    split
+    · rfl
+    · rename_i hne; exact t.bwd k hk hne
+  · exact perm_cons_ts perm inv.ts_nodup
+  · intro e' he'
+    exact inv.ts_le e' (perm.mem_iff.1 (List.mem_cons_of_mem _ he'))
+
+/-- the common second half of `Store`/`Access`: add an element with a fresh key and the newest timestamp,
+replay the log -/
+theorem addSync_spec {cfg : Cfg} (ok : CfgOK cfg) {s : Lru} {v : Entry}
+    (t : Tr s.present v.key s.h) (hv : v.key ∉ s.h.data.map (·.key)) :
+    let r := add cfg ltEntry s.h v
+    let s1 := ({ s with h := r.1 } : Lru).sync
+    (∀ p e, s1.h.data[p]? = some e → s1.present.get e.key = some p) ∧
+    (∀ k, k ∉ s1.h.data.map (·.key) → s1.present.get k = none) ∧
+    s1.h.data.Perm (v :: s.h.data) ∧ s1.h.data[r.2]? = some v := by
+  have := add_spec ok t hv
+  have hmem : v.key ∈ (add cfg ltEntry s.h v).1.data.map (·.key) :=
+    ((this.2.1.map (·.key)).mem_iff).2 (by simp)
+  refine ⟨?_, ?_, this.2.1, this.2.2⟩
+  · intro p e hp
+    rw [sync_present]
+    exact this.1.fwd p e hp
+  · intro k hk
+    rw [sync_present]
+    exact this.1.bwd k hk (fun h => hk (h ▸ hmem))
+
+theorem ts_fresh {l l' : List Entry} {v : Entry} {clk : Nat} (hp : l'.Perm (v :: l))
+    (nd : (l.map (·.lastAccess)).Nodup) (le : ∀ e ∈ l, e.lastAccess ≤ clk) (hv : v.lastAccess = clk + 1) :
+    (l'.map (·.lastAccess)).Nodup ∧ ∀ e ∈ l', e.lastAccess ≤ clk + 1 := by
+  constructor
+  · apply (hp.map (·.lastAccess)).nodup_iff.2
+    rw [List.map_cons, List.nodup_cons]
+    refine ⟨fun hm => ?_, nd⟩
+    obtain ⟨e, he, hee⟩ := List.mem_map.1 hm
+    have := le e he
+    have hee' : e.lastAccess = v.lastAccess := hee
+    omega
+  · intro e he
+    rcases List.mem_cons.1 (hp.mem_iff.1 he) with rfl | h
+    · omega
+    · have := le e h; omega
+
+/-- `Store` of an absent key never panics; the new element gets the newest timestamp -/
+theorem store_spec {cfg : Cfg} (ok : CfgOK cfg) {s : Lru} (inv : LruInv s) {k : Nat} (v : Nat)
+    (hk : k ∉ s.h.data.map (·.key)) :
+    ∃ s', s.store cfg k v = .ok s' ∧ LruInv s' ∧
+      s'.h.data.Perm ({ lastAccess := s.clock + 1, key := k, value := v } :: s.h.data) ∧
+      s'.clock = s.clock + 1 := by
+  let ne : Entry := { lastAccess := s.clock + 1, key := k, value := v }
+  let s0 : Lru := { s with clock := s.clock + 1 }
+  have t0 : Tr s0.present ne.key s0.h := inv.tr k
+  obtain ⟨fwd, bwd, perm, hpos⟩ := addSync_spec ok (s := s0) t0 hk
+  have ts := ts_fresh perm inv.ts_nodup inv.ts_le rfl
+  let s1 := ({ s0 with h := (add cfg ltEntry s0.h ne).1 } : Lru).sync
+  refine ⟨{ s1 with present := s1.present.set k (add cfg ltEntry s0.h ne).2 }, ?_,
+    ⟨rfl, ?_, ?_, ts.1, ts.2⟩, perm, rfl⟩
+  · simp only [Lru.store, inv.bwd k hk]
+    rfl
+  · intro p e hp
+    show (Index.set _ k _).get e.key = some p
+    rw [get_set]
+    split
+    · rename_i hek
+      have := @Tr.inj _ e.key _ ⟨fwd, fun k hk _ => bwd k hk⟩ _ _ _ _ hp hpos hek
+      rw [this]
+    · exact fwd p e hp
+  · intro k' hk'
+    show (Index.set _ k _).get k' = none
+    rw [get_set]
+    have : k' ≠ k := fun h => hk' (by rw [h]; exact mem_keys_of_getElem? hpos)
+    rw [if_neg this]
+    exact bwd k' hk'
+
+/-- `Access` of a present key: the element is re-added with the newest timestamp, value returned -/
+theorem access_spec {cfg : Cfg} (ok : CfgOK cfg) {s : Lru} (inv : LruInv s) {e : Entry} (he : e ∈ s.h.data) :
+    ∃ rest, (e :: rest).Perm s.h.data ∧
+      (s.access cfg e.key).1.h.data.Perm ({ e with lastAccess := s.clock + 1 } :: rest) ∧
+      (s.access cfg e.key).2 = some e.value ∧ LruInv (s.access cfg e.key).1 ∧
+      (s.access cfg e.key).1.clock = s.clock + 1 := by
+  obtain ⟨p, hg, hp, hlt⟩ := inv.get_of_mem he
+  obtain ⟨hout, t, perm⟩ := popSync_spec ok inv hp (s.clock + 1)
+  let s1 := ({ s with h := (pop cfg ltEntry s.h p).1, clock := s.clock + 1 } : Lru).sync
+  let ne : Entry := { e with lastAccess := s.clock + 1 }
+  have nk := perm_cons_nodup_keys perm inv.nodup
+  have t1 : Tr s1.present ne.key s1.h := t
+  obtain ⟨fwd, bwd, perm2, _⟩ := addSync_spec ok (s := s1) t1 nk.1
+  have ha : s.access cfg e.key =
+      (({ s1 with h := (add cfg ltEntry s1.h ne).1 } : Lru).sync, some e.value) := by
+    have : ¬ p ≥ s.h.len := by simp [H.len]; exact hlt
+    simp only [Lru.access, hg, heapRemove, this, if_false]
+    rw [hout]
+  rw [ha]
+  have le1 : ∀ e' ∈ s1.h.data, e'.lastAccess ≤ s.clock := fun e' he' =>
+    inv.ts_le e' (perm.mem_iff.1 (List.mem_cons_of_mem _ he'))
+  have ts := ts_fresh perm2 (perm_cons_ts perm inv.ts_nodup) le1 rfl
+  exact ⟨s1.h.data, perm, perm2, rfl, ⟨rfl, fwd, bwd, ts.1, ts.2⟩, rfl⟩
+
+theorem access_absent {cfg : Cfg} {s : Lru} (inv : LruInv s) {k : Nat} (hk : k ∉ s.h.data.map (·.key)) :
+    s.access cfg k = (s, none) := by
+  simp [Lru.access, inv.bwd k hk]
+
 end MdsVerif.Proofs.Cache
